@@ -13,6 +13,9 @@ import (
 // step executes one instruction; it returns true when the block ended.
 func (x *Exec) step(fr *Frame, st *State, ins ssa.Instruction, incoming map[*ssa.BasicBlock][]edgeState) bool {
 	b := ins.Block()
+	if ins.Pos().IsValid() {
+		x.curPos = ins.Pos()
+	}
 	switch i := ins.(type) {
 	case *ssa.DebugRef:
 		return false
@@ -245,6 +248,9 @@ func (x *Exec) unop(fr *Frame, st *State, i *ssa.UnOp) *Val {
 	switch i.Op {
 	case token.MUL: // load
 		elem := i.Type()
+		if clo := x.staticClosureVar(fr, i); clo != nil {
+			return clo
+		}
 		loc := x.derefLoc(st, v, elem, i.Pos(), "load")
 		t := x.load(st, loc)
 		t = x.sc.Define("ld_"+i.Name(), t)
@@ -741,4 +747,102 @@ func bvConstVal(t Term, w int) (uint64, bool) {
 		return n, err == nil
 	}
 	return 0, false
+}
+
+// staticClosureVar: a closure verified on its own reads a captured variable of
+// function type (hasCol := func..., captured by add). When the enclosing
+// function assigns that variable exactly once, with a function literal, the
+// load yields that literal, bound to this closure's own captured variables of
+// the same name (they are the same variables of the enclosing function).
+func staticClosureTarget(i *ssa.UnOp) *ssa.Function {
+	fv, ok := i.X.(*ssa.FreeVar)
+	if !ok || i.Op != token.MUL || fv.Parent() == nil || fv.Parent().Parent() == nil {
+		return nil
+	}
+	if _, isFunc := i.Type().Underlying().(*types.Signature); !isFunc {
+		return nil
+	}
+	parent := fv.Parent().Parent()
+	var cell *ssa.Alloc
+	for _, b := range parent.Blocks {
+		for _, ins := range b.Instrs {
+			if a, ok := ins.(*ssa.Alloc); ok && a.Comment == fv.Name() {
+				if cell != nil {
+					return nil
+				}
+				cell = a
+			}
+		}
+	}
+	if cell == nil {
+		return nil
+	}
+	var mc *ssa.MakeClosure
+	for _, r := range *cell.Referrers() {
+		if s, ok := r.(*ssa.Store); ok && s.Addr == ssa.Value(cell) {
+			m, ok := s.Val.(*ssa.MakeClosure)
+			if !ok || mc != nil {
+				return nil
+			}
+			mc = m
+		}
+	}
+	if mc == nil {
+		return nil
+	}
+	return mc.Fn.(*ssa.Function)
+}
+
+func (x *Exec) staticClosureVar(fr *Frame, i *ssa.UnOp) *Val {
+	fv, ok := i.X.(*ssa.FreeVar)
+	if !ok || fr.fn.Parent() == nil {
+		return nil
+	}
+	if _, isFunc := i.Type().Underlying().(*types.Signature); !isFunc {
+		return nil
+	}
+	parent := fr.fn.Parent()
+	var cell *ssa.Alloc
+	for _, b := range parent.Blocks {
+		for _, ins := range b.Instrs {
+			if a, ok := ins.(*ssa.Alloc); ok && a.Comment == fv.Name() {
+				if cell != nil {
+					return nil
+				}
+				cell = a
+			}
+		}
+	}
+	if cell == nil {
+		return nil
+	}
+	var mc *ssa.MakeClosure
+	for _, r := range *cell.Referrers() {
+		if s, ok := r.(*ssa.Store); ok && s.Addr == ssa.Value(cell) {
+			m, ok := s.Val.(*ssa.MakeClosure)
+			if !ok || mc != nil {
+				return nil
+			}
+			mc = m
+		}
+	}
+	if mc == nil {
+		return nil
+	}
+	target := mc.Fn.(*ssa.Function)
+	var binds []*Val
+	for _, tf := range target.FreeVars {
+		var mine *Val
+		for _, mf := range fr.fn.FreeVars {
+			if mf.Name() == tf.Name() {
+				mine = fr.env[mf]
+			}
+		}
+		if mine == nil {
+			return nil
+		}
+		binds = append(binds, mine)
+	}
+	x.assumeNote(fmt.Sprintf("%s: captured variable %s is the function literal %s assigned once in %s", fr.fn.Name(), fv.Name(), target.Name(), parent.Name()))
+	return &Val{Ty: i.Type(), Clo: &Closure{Fn: target, Bindings: binds}}
 }
